@@ -79,6 +79,8 @@ NoExtra == [id |-> 0, fresh |-> TRUE, foreign |-> FALSE, deniedR |-> FALSE, deni
 Ex(id, fresh, foreign, dr, dw) == [id |-> id, fresh |-> fresh, foreign |-> foreign, deniedR |-> dr, deniedW |-> dw]
 
 Dev(d) == d \in Devs
+\* the session a subscription is bound to: the one the broker finds for the token, else none
+OwnerOf(c) == IF c \in Sessions /\ sess[c] \in {"created", "activated"} THEN c ELSE "null"
 \* name of the deviation "service answered although the caller has no activated session"
 NoSess(svc) == "nosession-" \o svc
 
@@ -167,7 +169,7 @@ CreateSub(c, id, res) ==
        body(dev) ==
           \/ /\ res = "ok" /\ id # NoSub
              /\ fresh \/ Dev("subid-reuse")
-             /\ subs' = Put(subs, id, c)
+             /\ subs' = Put(subs, id, OwnerOf(c))
              /\ UNCHANGED <<sess, items, nodes>>
              /\ last' = Req("CreateSub", c, res, IF dev # "" THEN dev ELSE IF fresh THEN "" ELSE "subid-reuse",
                             Ex(id, fresh, FALSE, FALSE, FALSE))
@@ -206,7 +208,7 @@ CreateItem(c, sub, id, res) ==
           \/ /\ res = "ok" /\ id # 0
              /\ usable \/ (foreign /\ Dev("createitem-foreign-effective"))
              /\ fresh \/ Dev("itemid-reuse")
-             /\ items' = Put(items, id, [sub |-> sub, owner |-> subs[sub], mode |-> "reporting"])
+             /\ items' = Put(items, id, [sub |-> sub, owner |-> subs[sub], mode |-> "initial"])
              /\ UNCHANGED <<sess, subs, nodes>>
              /\ last' = Req("CreateItem", c, res,
                             IF dev # "" THEN dev ELSE IF ~usable THEN "createitem-foreign-effective"
@@ -236,14 +238,14 @@ ItemOp(svc, c, id, res, effect(_)) ==
    IN IF Valid(c) THEN body("")
       ELSE Refuse(svc, c, res, ex) \/ (Dev(NoSess(svc)) /\ res # "sessErr" /\ body(NoSess(svc)))
 
-SetModeEffect(id) == items' = [items EXCEPT ![id].mode = "disabled"] /\ UNCHANGED <<sess, subs, nodes>>
+SetModeEffect(id) == items' = [items EXCEPT ![id].mode = "sampling"] /\ UNCHANGED <<sess, subs, nodes>>
 DelItemEffect(id) == items' = Drop(items, {id}) /\ UNCHANGED <<sess, subs, nodes>>
 SetMode(c, id, res)    == ItemOp("SetMode", c, id, res, SetModeEffect)
 DeleteItem(c, id, res) == ItemOp("DeleteItem", c, id, res, DelItemEffect)
 
 \* A request that kills the server process is never part of the contract
-Crash(svc, c, dev) == /\ Dev(dev) /\ UNCHANGED core
-                      /\ last' = Req(svc, c, "crash", dev, NoExtra)
+Crash(svc, c) == /\ Dev("crash-" \o svc) /\ UNCHANGED core
+                 /\ last' = Req(svc, c, "crash", "crash-" \o svc, NoExtra)
 
 ---------------------------------------------------------------------------
 Results == {"ok", "sessErr", "denied", "value", "badId", "notOwner", "fault", "unsupported"}
